@@ -496,7 +496,7 @@ def run(ck: Check) -> None:
     explicit = corpus_cases()
     ncorpus = len(explicit)
     if thorough:
-        enum_scopes = [("shampoo", 1, 1, 1, 4), ("soap_qr", 0, 1, 1, 4), ("soap_eigh", 1, 2, 2, 4), ("shampoo", 2, 1, 1, 5)]
+        enum_scopes = [("shampoo", 1, 1, 1, 4), ("soap_qr", 0, 1, 1, 4), ("soap_eigh", 1, 2, 2, 4)]
     else:
         enum_scopes = [("shampoo", 1, 1, 1, 3), ("soap_qr", 0, 1, 1, 3), ("soap_eigh", 1, 1, 2, 3)]
     for sc in enum_scopes:
